@@ -42,6 +42,14 @@ func (w *recorder) WriteHeader(s int) {
 	if w.status == 0 {
 		w.status = s
 	}
+	// a slow client stalls the response as early as its status line
+	if w.gate != nil && !w.gated && s == http.StatusOK {
+		w.gated = true
+		if w.atGate != nil {
+			close(w.atGate)
+		}
+		<-w.gate
+	}
 }
 func (w *recorder) Write(p []byte) (int, error) {
 	if w.status == 0 {
